@@ -24,7 +24,8 @@ META = {
             "dictionary's keys (iteration, membership), reads return the value stored last element by element or raise for an absent "
             "point, items() yields everything and leaves nothing loaded, re-opening loses nothing. (5) EKO.approx is partially evaluated on "
             "concrete stores covering every ordering (same/different nf at equal scale, scales inside/outside tolerance): it "
-            "returns the unique point within tolerance with the query's nf, None, or raises when ambiguous.",
+            "returns the unique point within tolerance with the query's nf, None, or raises when ambiguous."
+            " Histories include the operation 'change a looked-up operator in place and assign the same object again'.",
     "note": "The equivalence with a dictionary model is decided for every history up to the stated length over two evolution points "
             "(values symbolic, so for all operator contents); longer histories and more points are not enumerated. OS-level failures are "
             "C38's subject. Nothing is executed: the repository's code is partially evaluated on a model file system.",
